@@ -86,13 +86,13 @@ def sumLike (s : String) : Bool :=
 
 def accumulates (f : Func) : Bool := f.family == .additive || f.family == .floating || f.family == .quantile
 
-/-- inside NumPy's domain and outside the two recorded deviations the model's dtype is the convention's,
-    and the call is never refused by the dtype logic -/
+/-- inside NumPy's domain and outside the recorded deviation the model's dtype is the convention's,
+    and the call is refused by the dtype logic only for arg-reductions with a floating `dtype=` -/
 def checkConvention (f : Func) (d : DType) (u : UserD) (k : FillK) (mc : Bool) : Bool :=
   !(inDomain f d u k) ||
     (match model f d u k mc false with
      | .ok r => knownDeviation f d u k || spec f d u (effFill f k mc) == some r
-     | .error _ => false)
+     | .error _ => argFloatRefused f u)
 
 /-- `engine="flox"` changes one branch of the entry logic (count on datetimes): never the result -/
 def checkEngineCount (_f : Func) (d : DType) (u : UserD) (k : FillK) (mc : Bool) : Bool :=
